@@ -450,7 +450,7 @@ func genPlanOps(r *hx.Rand, d *SetDesc) {
 
 func pt(t int64, v int64) Pt { return Pt{T: t, V: uint64(v)} }
 
-func designed() []designedCase {
+func designed(tier string) []designedCase {
 	var cs []designedCase
 	k1 := []KeyDesc{{Base: "cpu,host=a#!~#v", Typ: 1}}
 	// 1. the witness of noncontiguous_group_refuted: the group {1,3} jumps over generation 2,
@@ -567,6 +567,49 @@ func designed() []designedCase {
 	}
 	plan.Ops = []PlanOp{{Op: "level", Level: 1, Keep: true}, {Op: "compact", Which: 0, Idx: 1}, {Op: "level", Level: 2, Run: true}}
 	cs = append(cs, designedCase{"plan", plan})
+	// 9. a whole-series delete issued while the compaction runs: of a key held by the group
+	//    (the block iterators notice it), and of a key no group member holds
+	for _, fast := range []bool{false, true} {
+		for dk := 0; dk < 2; dk++ {
+			d := jump
+			d.Fast = fast
+			d.Keys = []KeyDesc{{Base: "cpu,host=a#!~#v", Typ: 1}, {Base: "mem,host=a#!~#used", Typ: 1}, {Base: "zz,t=1#!~#f", Typ: 1}}
+			d.Files = []FileDesc{
+				{Gen: 1, Seq: 1, Data: []KB{{K: 0, Blocks: [][]Pt{{pt(1, 1), pt(2, 1)}}}, {K: 2, Blocks: [][]Pt{{pt(1, 5)}}}}},
+				{Gen: 2, Seq: 1, Data: []KB{{K: 0, Blocks: [][]Pt{{pt(2, 2)}}}, {K: 2, Blocks: [][]Pt{{pt(3, 6)}}}}},
+				{Gen: 3, Seq: 1, Data: []KB{{K: 1, Blocks: [][]Pt{{pt(7, 7)}}}}},
+			}
+			d.Group = [][2]int{{1, 1}, {2, 1}}
+			d.DelKey = dk
+			cs = append(cs, designedCase{"delete", d})
+		}
+	}
+	// 10. roll-over at the writer's limit of 65535 blocks per key and file: the last key of
+	//     the compaction has exactly 65535 one-point blocks (nothing is left for the next
+	//     file), one more, one less, and a roll-over that lands on a key boundary
+	const maxBlocks = 65535
+	rollKeys := []KeyDesc{{Base: "cpu,host=A#!~#value", Typ: 1}, {Base: "cpu,host=B#!~#value", Typ: 1}}
+	roll := func(fast bool, size int, big []BigFile) SetDesc {
+		d := SetDesc{Keys: rollKeys, Size: size, Fast: fast, Lo: minNano, Hi: maxNano, Big: big}
+		for _, b := range big {
+			d.Group = append(d.Group, [2]int{b.Gen, b.Seq})
+		}
+		return d
+	}
+	exact := []BigFile{{Gen: 1, Seq: 1, Runs: []BigRun{{K: 1, From: 0, N: maxBlocks, Val: 7}}}, {Gen: 2, Seq: 1, Runs: []BigRun{{K: 0, From: 0, N: 3, Val: 9}}}}
+	cs = append(cs, designedCase{"roll", roll(true, 1000, exact)})
+	if tier == "thorough" {
+		cs = append(cs, designedCase{"roll", roll(false, 1, exact)})
+		cs = append(cs, designedCase{"roll", roll(true, 1000, []BigFile{
+			{Gen: 1, Seq: 1, Runs: []BigRun{{K: 1, From: 0, N: maxBlocks, Val: 7}}}, {Gen: 2, Seq: 1, Runs: []BigRun{{K: 1, From: maxBlocks, N: 1, Val: 7}}}})})
+		cs = append(cs, designedCase{"roll", roll(false, 1, []BigFile{
+			{Gen: 1, Seq: 1, Runs: []BigRun{{K: 1, From: 0, N: maxBlocks - 1, Val: 7}}}, {Gen: 2, Seq: 1, Runs: []BigRun{{K: 0, From: 0, N: 3, Val: 9}}}})})
+		// the first key fills the file exactly: the next file starts with the next key
+		cs = append(cs, designedCase{"roll", roll(true, 1000, []BigFile{
+			{Gen: 1, Seq: 1, Runs: []BigRun{{K: 0, From: 0, N: maxBlocks, Val: 7}}}, {Gen: 2, Seq: 1, Runs: []BigRun{{K: 1, From: 0, N: 5, Val: 9}}}})})
+		cs = append(cs, designedCase{"roll", roll(false, 1, []BigFile{
+			{Gen: 1, Seq: 1, Runs: []BigRun{{K: 0, From: 0, N: maxBlocks, Val: 7}}}, {Gen: 2, Seq: 1, Runs: []BigRun{{K: 1, From: 0, N: maxBlocks, Val: 9}}}})})
+	}
 	return cs
 }
 
@@ -588,6 +631,11 @@ func generate(o *hx.Out, r *hx.Rand, n int, tier string) {
 			}
 			d.ViaEngine = r.Chance(30)
 			runCompact(o, &d, "gen")
+		case k < 59:
+			d := genSet(r, size, 4, false)
+			pickGroup(r, &d)
+			d.DelKey = r.Intn(len(d.Keys))
+			runDelete(o, &d, "gen")
 		case k < 66:
 			d := genSet(r, size, 4, false)
 			pickGroup(r, &d)
